@@ -84,6 +84,12 @@ fn check_version(s: &str, verdict: &str, overflow: bool) -> Vec<String> {
     p
 }
 
+fn api_normal(s: &str) -> String {
+    let mut parts: Vec<String> = s.split('.').map(|p| { let t = p.trim_start_matches('0'); if t.is_empty() { "0".to_string() } else { t.to_string() } }).collect();
+    if parts.len() == 1 { parts.push("0".into()); }
+    parts.join(".")
+}
+
 fn check_api(s: &str, verdict: &str, overflow: bool) -> Vec<String> {
     let mut p = vec![];
     let a = BuildpackApi::try_from(s.to_string()).ok();
@@ -98,8 +104,20 @@ fn check_api(s: &str, verdict: &str, overflow: bool) -> Vec<String> {
     }
     if let Some(v) = &a {
         if BuildpackApi::try_from(v.to_string()).ok().as_ref() != Some(v) { p.push(format!("BuildpackApi: display/parse are not inverse for {s:?}")); }
+        // the accepted value must be the number that was written
+        if s.chars().all(|c| c.is_ascii_digit() || c == '.') && v.to_string() != api_normal(s) { p.push(format!("BuildpackApi: {s:?} is accepted as {v}")); }
     }
     p
+}
+
+/// the same string value written in one of three literal styles (plain with the necessary escapes,
+/// every character as a \\u{..} escape, raw string); a macro must not care
+fn rust_lit_style(s: &str, style: usize) -> String {
+    match style % 3 {
+        1 => format!("\"{}\"", s.chars().map(|c| format!("\\u{{{:x}}}", c as u32)).collect::<String>()),
+        2 if !s.contains('\r') && !s.contains("\"#") => format!("r#\"{s}\"#"),
+        _ => rust_lit(s),
+    }
 }
 
 fn rust_lit(s: &str) -> String {
@@ -116,6 +134,9 @@ fn rust_lit(s: &str) -> String {
     o.push('"');
     o
 }
+
+/// numbers around and beyond the u64 range
+const BIG: [&str; 6] = ["18446744073709551615", "18446744073709551616", "18446744073709551625", "28446744073709551615", "99999999999999999999", "184467440737095516150"];
 
 fn main() {
     let args: Vec<String> = std::env::args().collect();
@@ -182,11 +203,14 @@ fn main() {
         }
         let nums: [u64; 8] = [0, 1, 9, 10, 4294967295, 4294967296, u64::MAX - 1, u64::MAX];
         for i in 0..n {
-            let mut parts: Vec<String> = (0..[3usize, 3, 3, 2, 1, 4][r.usize(..6)]).map(|_| if r.bool() { nums[r.usize(..8)].to_string() } else { r.u64(..).to_string() }).collect();
+            let mut parts: Vec<String> = (0..[3usize, 3, 3, 2, 1, 4][r.usize(..6)]).map(|_| match r.u32(..8) { 0..=2 => nums[r.usize(..8)].to_string(), 3 => BIG[r.usize(..BIG.len())].to_string(), _ => r.u64(..).to_string() }).collect();
             match i % 9 { 0 => parts[0] = format!("0{}", parts[0]), 1 => parts[0] = format!("+{}", parts[0]), 2 => parts[0] = format!(" {}", parts[0]), 3 => { let l = parts.len() - 1; parts[l].push('a'); } 4 => { let l = parts.len() - 1; parts[l].push(' '); } _ => {} }
             let st = parts.join(".");
             let chars: Vec<String> = st.chars().map(|c| c.to_string()).collect();
-            writeln!(f, "{}", json!({"kind": "version", "s": chars, "version": BuildpackVersion::try_from(st.clone()).is_ok(), "api": BuildpackApi::try_from(st.clone()).is_ok()})).unwrap();
+            let cs = |o: Option<String>| -> Vec<String> { o.map(|d| d.chars().map(|c| c.to_string()).collect()).unwrap_or_default() };
+            let (bv, ba) = (BuildpackVersion::try_from(st.clone()).ok(), BuildpackApi::try_from(st.clone()).ok());
+            writeln!(f, "{}", json!({"kind": "version", "s": chars, "version": bv.is_some(), "api": ba.is_some(),
+                "version_display": cs(bv.map(|v| v.to_string())), "api_display": cs(ba.map(|v| v.to_string()))})).unwrap();
         }
         f.flush().unwrap();
         s.extra.insert("random_strings".into(), json!(2 * n));
@@ -199,8 +223,11 @@ fn main() {
     std::fs::copy("/repo/Cargo.lock", dir.join("Cargo.lock")).unwrap();
     let mut src = String::from("#![allow(unused)]\nfn main() {\n");
     let first_line = 3;
-    for (m, lit, _, _) in &macro_cases {
-        src.push_str(&format!("let _ = libcnb_data::{m}!({});\n", rust_lit(lit)));
+    for (i, (m, lit, _, _)) in macro_cases.iter().enumerate() {
+        // (a raw string may span lines: keep one invocation per line by falling back to escapes)
+        let l = rust_lit_style(lit, i);
+        let l = if l.contains('\n') { rust_lit(lit) } else { l };
+        src.push_str(&format!("let _ = libcnb_data::{m}!({l});\n"));
     }
     src.push_str("}\n");
     std::fs::write(dir.join("src/main.rs"), src).unwrap();
